@@ -42,6 +42,12 @@ var (
 	stackBuf     = make([]byte, 256<<10)
 )
 
+var (
+	debugDump = os.Getenv("JSIM_DBG_SEED") != ""
+	lastDump  string
+	inPoison  bool
+)
+
 // after this many hangs in one process, runs that could add another one are skipped
 const maxHangsPerProcess = 400
 
@@ -58,8 +64,9 @@ var lockStates = map[string]bool{
 	"semacquire":         true,
 }
 
-// takeCensus classifies every goroutine of the bubble except the calling one.
-func takeCensus() census {
+// snapshot calls f for every goroutine the runtime lists except the calling one: its id, whether
+// its header carries the bubble's tag, and its status.
+func snapshot(f func(id uint64, tagged bool, status []byte, understood bool)) {
 	var n int
 	for {
 		n = runtime.Stack(stackBuf, true)
@@ -69,7 +76,9 @@ func takeCensus() census {
 		stackBuf = make([]byte, 2*len(stackBuf))
 	}
 	s := stackBuf[:n]
-	var cs census
+	if debugDump && !inPoison {
+		lastDump = string(s)
+	}
 	first := true
 	for len(s) > 0 {
 		eol := bytes.IndexByte(s, '\n')
@@ -78,7 +87,7 @@ func takeCensus() census {
 			line = s[:eol]
 		}
 		if !first { // the first record is the caller
-			classifyHeader(line, &cs)
+			parseHeader(line, f)
 		}
 		first = false
 		nxt := bytes.Index(s, []byte("\n\ngoroutine "))
@@ -87,14 +96,13 @@ func takeCensus() census {
 		}
 		s = s[nxt+2:]
 	}
-	return cs
 }
 
 // header: goroutine 22 [sync.Mutex.Lock, 2 minutes, synctest bubble 1]:
-func classifyHeader(line []byte, cs *census) {
+func parseHeader(line []byte, f func(id uint64, tagged bool, status []byte, understood bool)) {
 	const pre = "goroutine "
 	if !bytes.HasPrefix(line, []byte(pre)) {
-		cs.active++ // not understood: never conclude anything from it
+		f(0, false, nil, false)
 		return
 	}
 	rest := line[len(pre):]
@@ -107,27 +115,55 @@ func classifyHeader(line []byte, cs *census) {
 	open := bytes.IndexByte(rest, '[')
 	closeb := bytes.LastIndex(rest, []byte("]:"))
 	if i == 0 || open < 0 || closeb < open {
-		cs.active++
+		f(0, false, nil, false)
 		return
 	}
 	state := rest[open+1 : closeb]
-	if !bytes.Contains(state, []byte("synctest bubble")) {
-		return // outside the bubble: the runtime's and the test framework's own goroutines
-	}
 	status := state
 	if k := bytes.Index(state, []byte(", ")); k >= 0 {
 		status = state[:k]
 	}
-	switch {
-	case bytes.HasSuffix(status, []byte("(durable)")):
-		cs.durable++
-	case lockStates[string(status)]:
-		if !staleLocked[id] {
-			cs.locked = append(cs.locked, id)
+	f(id, bytes.Contains(state, []byte("synctest bubble")), status, true)
+}
+
+// foreign: goroutines that do not belong to the bubble (the test framework's, the exit watcher).
+// The bubble tag alone does not tell: the runtime takes a goroutine out of its bubble while it
+// assists the garbage collector, so an untagged goroutine counts as a busy goroutine of the run
+// unless it was already there, untagged, at a moment when the run had started nothing yet.
+var foreign = map[uint64]bool{}
+
+// markForeign is called at the start of a run, before it starts any goroutine (goroutines left
+// behind by earlier hangs are blocked, hence not allocating, hence tagged).
+func markForeign() {
+	snapshot(func(id uint64, tagged bool, _ []byte, understood bool) {
+		if understood && !tagged {
+			foreign[id] = true
 		}
-	default:
-		cs.active++
-	}
+	})
+}
+
+// takeCensus classifies every goroutine of the bubble except the calling one.
+func takeCensus() census {
+	var cs census
+	snapshot(func(id uint64, tagged bool, status []byte, understood bool) {
+		switch {
+		case !understood:
+			cs.active++ // never conclude anything from what is not understood
+		case !tagged:
+			if !foreign[id] {
+				cs.active++
+			}
+		case bytes.HasSuffix(status, []byte("(durable)")):
+			cs.durable++
+		case lockStates[string(status)]:
+			if !staleLocked[id] {
+				cs.locked = append(cs.locked, id)
+			}
+		default:
+			cs.active++
+		}
+	})
+	return cs
 }
 
 func realMs() int64 {
@@ -187,6 +223,8 @@ func poison(c *sim.Ctx) {
 		go keepAlive.Lock()
 	}
 	hangsSeen++
+	inPoison = true
+	defer func() { inPoison = false }()
 	_, _ = settle(c, never, 0)
 	for _, id := range takeCensus().locked {
 		staleLocked[id] = true
